@@ -6,6 +6,8 @@
 // Build variants (see tools/fmlib.py): value legs (g++/clang++, -O0..-O3, c++17/20/2b, abacus on/off)
 // and the UB leg (-fsanitize=undefined,address -fno-sanitize-recover=all -D_GLIBCXX_ASSERTIONS).
 #include <fixedmath/fixed_math.hpp>
+#include <fixedmath/iostream.h>
+#include <sstream>
 #include <cstdio>
 #include <cstdlib>
 #include <cstring>
@@ -52,6 +54,42 @@ static fixed_t fx(i128 v){ return as_fixed((int64_t)v); }
 [[gnu::noinline]] static int64_t sub_pn(int64_t a, int64_t b){ if(a<=0||b>=0) __builtin_unreachable(); return (as_fixed(a)-as_fixed(b)).v; }
 [[gnu::noinline]] static int64_t sub_np(int64_t a, int64_t b){ if(a>=0||b<=0) __builtin_unreachable(); return (as_fixed(a)-as_fixed(b)).v; }
 [[gnu::noinline]] static bool add_pp_isnan(int64_t a, int64_t b){ if(a<=0||b<=0) __builtin_unreachable(); return isnan(as_fixed(a)+as_fixed(b)); }
+// --- calls whose second operand is a literal (a fast path keyed on __builtin_constant_p only exists here) ---
+template<int K> static int64_t shl_lit(fixed_t x){ return (x << K).v; }
+template<int K> static int64_t shr_lit(fixed_t x){ return (x >> K).v; }
+template<int K> static int64_t mul_lit(fixed_t x){ return (x * K).v; }
+template<int K> static int64_t div_lit(fixed_t x){ return (x / K).v; }
+#define LIT_CASES(F) case 0: return F<0>(x); case 1: return F<1>(x); case 2: return F<2>(x); case 3: return F<3>(x); case 8: return F<8>(x); \
+  case 10: return F<10>(x); case 15: return F<15>(x); case 16: return F<16>(x); case 17: return F<17>(x); case 31: return F<31>(x); case 32: return F<32>(x); \
+  case 33: return F<33>(x); case 47: return F<47>(x); case 48: return F<48>(x); case 62: return F<62>(x); case 63: return F<63>(x); \
+  case 100: return F<100>(x); case 180: return F<180>(x); case 256: return F<256>(x); case 65536: return F<65536>(x);
+static bool lit_ok(long long k){ switch(k){ case 0: case 1: case 2: case 3: case 8: case 10: case 15: case 16: case 17: case 31: case 32: case 33: case 47: case 48: case 62: case 63: case 100: case 180: case 256: case 65536: return true; } return false; }
+static int64_t shl_l(fixed_t x, long long k){ switch(k){ LIT_CASES(shl_lit) } return 0; }
+static int64_t shr_l(fixed_t x, long long k){ switch(k){ LIT_CASES(shr_lit) } return 0; }
+static int64_t mul_l(fixed_t x, long long k){ switch(k){ LIT_CASES(mul_lit) } return 0; }
+static int64_t div_l(fixed_t x, long long k){ switch(k){ LIT_CASES(div_lit) } return 0; }
+// --- calls with a LITERAL argument (a dispatch on __builtin_constant_p / constant folding exists only here) ---
+#define LITV(F) F(0) F(1) F(65536) F(131071) F(131072) F(196608) F(327680) F(458752) F(6488064) F(809041920) F(40001) F(40002) F(60000) F(-60000) \
+                F(-65536) F(32768) F(-32768) F(51472) F(102944) F(205887) F(4294967296) F(1099511693312) F(268435456) F(-131072)
+template<long long V> struct lit_call {
+  static long long sqrt_(){ return sqrt(as_fixed(V)).v; }   static long long sin_(){ return sin(as_fixed(V)).v; }
+  static long long cos_(){ return cos(as_fixed(V)).v; }     static long long tan_(){ return tan(as_fixed(V)).v; }
+  static long long atan_(){ return atan(as_fixed(V)).v; }   static long long asin_(){ return asin(as_fixed(V)).v; }
+  static long long acos_(){ return acos(as_fixed(V)).v; }   static long long ceil_(){ return ceil(as_fixed(V)).v; }
+  static long long floor_(){ return floor(as_fixed(V)).v; } static long long abs_(){ return abs(as_fixed(V)).v; }
+  static long long neg_(){ return (-as_fixed(V)).v; }       static long long hyp_(){ return hypot(as_fixed(V), as_fixed(65536)).v; }
+};
+static bool lit_eval(const std::string& f, long long v, long long& r)
+  {
+#define ONE(V) if(v == V##LL){ using L = lit_call<V##LL>; \
+    if(f=="sqrt"){ r = L::sqrt_(); return true; } if(f=="sin"){ r = L::sin_(); return true; } if(f=="cos"){ r = L::cos_(); return true; } \
+    if(f=="tan"){ r = L::tan_(); return true; } if(f=="atan"){ r = L::atan_(); return true; } if(f=="asin"){ r = L::asin_(); return true; } \
+    if(f=="acos"){ r = L::acos_(); return true; } if(f=="ceil"){ r = L::ceil_(); return true; } if(f=="floor"){ r = L::floor_(); return true; } \
+    if(f=="abs"){ r = L::abs_(); return true; } if(f=="neg"){ r = L::neg_(); return true; } if(f=="hypot1"){ r = L::hyp_(); return true; } return false; }
+  LITV(ONE)
+#undef ONE
+  return false;
+  }
 // --- out-of-line kernels ---
 [[gnu::noinline]] static fixed_t add_ool(fixed_t a, fixed_t b){ return a+b; }
 [[gnu::noinline]] static fixed_t sub_ool(fixed_t a, fixed_t b){ return a-b; }
@@ -121,6 +159,8 @@ bool detail_op(const std::string& fn, const std::string& tag, const std::vector<
 static bool eval(const std::string& fn, const std::string& tag, const std::vector<i128>& a)
   {
   size_t n = a.size();
+  if(fn.rfind("lit_", 0) == 0 && n == 1 && (tag.empty() || tag == "dflt"))
+    { long long r; if(!lit_eval(fn.substr(4), (long long)a[0], r)) return false; out_i(r); return true; }
   if(tag.empty())
     {
     if(n==1)
@@ -154,6 +194,13 @@ static bool eval(const std::string& fn, const std::string& tag, const std::vecto
       if(fn=="subeq_self"){ x -= x; out_i(x.v); return true; }
       if(fn=="muleq_self"){ x *= x; out_i(x.v); return true; }
       if(fn=="diveq_self"){ x /= x; out_i(x.v); return true; }
+      if(fn=="stream")
+        { // operator<<(std::ostream&, fixed_t): the text with the decimal point removed (16 fraction digits) as an integer
+        std::ostringstream os; os << x; std::string t = os.str();
+        if(t == "NaN"){ std::puts("ok nan"); return true; }
+        std::string d; for(char c : t) if(c != '.') d += c;
+        std::printf("ok %s\n", d.c_str()); return true;
+        }
       if(fn=="early"){ if(a[0]<0||a[0]>11) return false; early_t now = early_eval(); g_sink = now.v[a[0]]; out_i(g_early.v[a[0]]); return true; }
       if(fn=="late"){ if(a[0]<0||a[0]>11) return false; early_t now = early_eval(); out_i(now.v[a[0]]); return true; }
       }
@@ -199,6 +246,17 @@ static bool eval(const std::string& fn, const std::string& tag, const std::vecto
       if(fn=="eq"){ out_i(x==y); return true; }
       if(fn=="ne"){ out_i(x!=y); return true; }
       if(fn=="atan2"){ out_i(atan2(x,y).v); return true; }
+      if(fn=="shl_lit" || fn=="shr_lit" || fn=="mul_lit" || fn=="div_lit")
+        {
+        long long k = (long long)a[1];
+        if(!lit_ok(k) || ((fn=="shl_lit"||fn=="shr_lit") && k > 63)) return false;
+        out_i(fn=="shl_lit" ? shl_l(x,k) : fn=="shr_lit" ? shr_l(x,k) : fn=="mul_lit" ? mul_l(x,k) : div_l(x,k)); return true;
+        }
+      // two calls of a table function in a row (hidden state keyed on a truncated argument): the second result counts
+      if(fn=="re_sin_aprox"){ g_sink = sin_angle_aprox((int32_t)a[0]).v; out_i(sin_angle_aprox((int32_t)a[1]).v); return true; }
+      if(fn=="re_cos_aprox"){ g_sink = cos_angle_aprox((int32_t)a[0]).v; out_i(cos_angle_aprox((int32_t)a[1]).v); return true; }
+      if(fn=="re_sincos_aprox"){ g_sink = sin_angle_aprox((int32_t)a[0]).v; out_i(cos_angle_aprox((int32_t)a[1]).v); return true; }
+      if(fn=="re_cossin_aprox"){ g_sink = cos_angle_aprox((int32_t)a[0]).v; out_i(sin_angle_aprox((int32_t)a[1]).v); return true; }
       if(fn=="hypot_aprox"){ out_i(hypot_aprox(x,y).v); return true; }
       if(fn=="shr"){ if(a[1] < INT32_MIN || a[1] > INT32_MAX) return false; out_i((x >> (int)a[1]).v); return true; }
       if(fn=="shl"){ if(a[1] < INT32_MIN || a[1] > INT32_MAX) return false; out_i((x << (int)a[1]).v); return true; }
